@@ -17,7 +17,7 @@ LEVEL_RULE = (
 )
 EXHAUSTIVE_SUBDOMAINS = ["DF 0..31 x {56,112} bits x {upper,lower,mixed} for structured addresses (single-bit, all-ones, zero)"]
 ASSUMPTIONS = ["canonical form = the string icao() returns for an upper-case DF20 frame of the same address (%06X)"]
-REQUIRED = ["df%d" % d for d in range(32)] + ["ap_text_echoed_in_payload", "ap_field_boundary_value", "literal_structured_strings", "table_replies_of_strangers", "table_two_trackers_alive", "table_after_thousands_of_evictions", "table_identical_replies_two_aircraft", "case_upper", "case_lower", "case_mixed", "len56", "len112", "table_one_key",
+REQUIRED = ["df%d" % d for d in range(32)] + ["ap_text_echoed_in_payload", "ap_field_boundary_value", "literal_structured_strings", "table_replies_of_strangers", "table_first_heard_by_tc0", "table_two_trackers_alive", "table_after_thousands_of_evictions", "table_identical_replies_two_aircraft", "case_upper", "case_lower", "case_mixed", "len56", "len112", "table_one_key",
                                               "allcall_rejects", "df_none"]
 
 AP = (0, 4, 5, 16, 20, 21)
@@ -112,6 +112,12 @@ def m_table(ctx, case):
     rng = ctx.rng
     addr = case["addr"]
     me = (4 << 51) | (rng.fill(3) << 48) | int(case["cs"], 16)  # TC4 identification
+    if rng.random() < 0.5:
+        # the aircraft is first heard through ANY extended squitter: every type code 0..31 (0 = "no position information",
+        # reserved codes too) with an arbitrary payload files it under its address
+        tc_ = rng.choice((0, 0, rng.randrange(32)))
+        me = (tc_ << 51) | rng.fill(51)
+        ctx.hit("table_first_heard_by_tc%d" % tc_)
     a = bits.tohex(bits.es_frame(17, 5, addr, me), 112, case["hexcase"], rng)
     b = bits.tohex(bits.commb_frame(case["df"], rng.fill(27), rng.fill(56), addr), 112, case["hexcase2"], rng)
     d = Decode()
